@@ -65,7 +65,7 @@ TypeTable == <<
   TRow("js", "application/javascript", "js"), TRow("json", "application/json", "json"),
   TRow("mjs", "application/javascript", "js"), TRow("rss", "application/rss+xml", "xml"),
   TRow("svg", "image/svg+xml", "svg"), TRow("webmanifest", "application/manifest+json", "json"),
-  TRow("xhtml", "application/xhtml-xml", "xml"), TRow("xml", "text/xml", "xml") >>
+  TRow("xhtml", "application/xhtml+xml", "xml"), TRow("xml", "text/xml", "xml") >>
 TypeRows == 1..Len(TypeTable)
 Hows == <<"type", "type-mime", "mime">>
 TypeArgOK(e) ==
